@@ -20,6 +20,9 @@ func genConcCase(rng *simrt.Rng, o *ConcOpts) *ConcCase {
 	if o.Ticker && cfg.withExpiry() && rng.Intn(2) == 0 {
 		cfg.Ticker = true
 	}
+	if rng.Intn(8) == 0 {
+		cfg.AtomicHandlerPoints = 1 + rng.Intn(6) // a slow OnAtomicDeletion handler
+	}
 	if o.Profile.Prop == "C06" && rng.Intn(6) == 0 {
 		cfg.HandlerPanicEvery = 1 + rng.Intn(3) // a handler that panics (under executors that contain it)
 	}
@@ -64,11 +67,17 @@ func genConcCase(rng *simrt.Rng, o *ConcOpts) *ConcCase {
 			cfg.InitCap = 480
 			n = 468 + rng.Intn(12)
 			if cfg.bounded() {
-				cfg.Max = uint64(479 + rng.Intn(5))
+				// the policy is at its limit from the first fresh key on: every insert evicts (one more
+				// remover at work while the table is copied) and an entry the policy has lost track of
+				// shows at once as an exceeded bound
+				n = 478 + rng.Intn(3)
+				cfg.Max = uint64(n + 1 + rng.Intn(2))
 			}
 			if cfg.Parallelism < 2 {
 				cfg.Parallelism = 2 + rng.Intn(3)
 			}
+			// removers linger in their handler (node retired, slot not yet cleared) while the table is copied
+			cfg.AtomicHandlerPoints = 8 + rng.Intn(40)
 		}
 		for i := 0; i < n; i++ {
 			cc.Prefill = append(cc.Prefill, Op{Kind: "set", K: 100 + i, V: pg.newVal()})
